@@ -9,7 +9,7 @@ import typing
 from typing import Any, Callable, Optional
 
 REGISTRY: dict = {"contracts": [], "invariants": [], "inline": set(), "lemmas": [], "shapes": {}, "ufs": {},
-                  "assumed": []}
+                  "assumed": [], "concrete_ok": set()}
 
 
 # ---- decorators ---------------------------------------------------------------------------------
@@ -54,6 +54,11 @@ def lemma(name: str, **opts: Any) -> Callable:
 def inline(*targets: str) -> None:
     """Transparent callees: their real body is executed in place of a contract (listed in evidence)."""
     REGISTRY["inline"].update(targets)
+
+
+def concrete_ok(*targets: str) -> None:
+    """Pure repository callables that may be executed natively when every argument is concrete."""
+    REGISTRY["concrete_ok"].update(targets)
 
 
 def shape(target: str) -> Callable:
@@ -105,6 +110,7 @@ def declare(**types: Any) -> None: ...
 def assume(cond: Any, reason: str = "") -> None: ...
 def check(cond: Any, label: str = "") -> None: ...
 def fresh_result(typ: Any = None) -> None: ...
+def sample(**types: Any) -> None: ...
 
 
 # ---- type descriptors -----------------------------------------------------------------------------
